@@ -410,6 +410,111 @@ impl<'a, S: Setup> G<'a, S> {
         let d = self.push(Stmt::Sub(a, b), vec![S::E::ZERO]);
         self.push(Stmt::AssertZero(d), vec![]);
     }
+    /// A differently shaped expression with the value of the existing var `m` (one operand is a
+    /// fresh input solved for): `x + y`, `x * y` or `x - y`.
+    #[allow(dead_code)]
+    fn equal_valued(&mut self, m: V) -> V {
+        let v = self.vals[m];
+        let y = self.var();
+        let vy = self.vals[y];
+        match self.rng.random_range(0..3u32) {
+            0 => {
+                let x = self.new_input(v - vy);
+                self.push(Stmt::Add(x, y), vec![v])
+            }
+            1 if vy != S::E::ZERO => {
+                let x = self.new_input(v * vy.inverse());
+                self.push(Stmt::Mul(x, y), vec![v])
+            }
+            _ => {
+                let x = self.new_input(v + vy);
+                self.push(Stmt::Sub(x, y), vec![v])
+            }
+        }
+    }
+    /// Re-emit the binary statement that defines `r` with its right operand replaced by a fresh
+    /// input connected to it (a duplicate only the connect classes reveal). The right operand
+    /// must be a computed var in clean programs.
+    fn dup_through_alias(&mut self, r: V) -> Option<V> {
+        let si = self.prog.stmts.len().checked_sub(1).and_then(|_| {
+            // statement index defining var r: vars and statements are not aligned, search backwards
+            let mut var = self.vals.len();
+            for (i, st) in self.prog.stmts.iter().enumerate().rev() {
+                let n = st.n_out(S::D);
+                if n == 0 {
+                    continue;
+                }
+                var -= n;
+                if r >= var && r < var + n {
+                    return Some(i);
+                }
+            }
+            None
+        })?;
+        let st = self.prog.stmts[si].clone();
+        let (a, b) = match st {
+            Stmt::Mul(a, b) | Stmt::Add(a, b) | Stmt::Sub(a, b) => (a, b),
+            _ => return None,
+        };
+        if self.opts.clean && self.leaf_count(b) > 0 {
+            return None;
+        }
+        let vb = self.vals[b];
+        let b2 = self.new_input(vb);
+        self.push(Stmt::Connect(b, b2), vec![]);
+        let v = self.vals[r];
+        Some(match st {
+            Stmt::Mul(..) => self.push(Stmt::Mul(a, b2), vec![v]),
+            Stmt::Add(..) => self.push(Stmt::Add(a, b2), vec![v]),
+            _ => self.push(Stmt::Sub(a, b2), vec![v]),
+        })
+    }
+    /// Two different operations with equal values, each duplicated through connect-aliased
+    /// operands; originals / duplicates are then connected across the two families, so one slot
+    /// is shared by duplicates of different canonical ops.
+    fn dup_pair_share(&mut self) {
+        let (a, x, y) = (self.var(), self.var(), self.var());
+        let b = {
+            let v = self.vals[x] + self.vals[y];
+            self.push(Stmt::Add(x, y), vec![v])
+        };
+        let m1 = {
+            let v = self.vals[a] * self.vals[b];
+            self.push(Stmt::Mul(a, b), vec![v])
+        };
+        // the other family: same value, other shape, right operand computed
+        let t1 = {
+            let v = self.vals[m1];
+            let (p, q) = (self.var(), self.var());
+            let yv = self.vals[p] * self.vals[q];
+            let yy = self.push(Stmt::Mul(p, q), vec![yv]);
+            if self.opts.clean || chance(self.rng, 1, 2) {
+                let xx = self.new_input(v - yv);
+                self.push(Stmt::Add(xx, yy), vec![v])
+            } else {
+                let xx = self.new_input(v + yv);
+                self.push(Stmt::Sub(xx, yy), vec![v])
+            }
+        };
+        let m2 = self.dup_through_alias(m1);
+        let t2 = self.dup_through_alias(t1);
+        let ms: Vec<V> = [Some(m1), m2].into_iter().flatten().collect();
+        let ts: Vec<V> = [Some(t1), t2].into_iter().flatten().collect();
+        let k = self.rng.random_range(1..3usize);
+        for _ in 0..k {
+            let m = ms[self.rng.random_range(0..ms.len())];
+            let t = ts[self.rng.random_range(0..ts.len())];
+            // prefer the pair of duplicates
+            let (m, t) = if chance(self.rng, 1, 2) { (*ms.last().unwrap(), *ts.last().unwrap()) } else { (m, t) };
+            if self.can_connect(m, t) {
+                if chance(self.rng, 1, 2) {
+                    self.push(Stmt::Connect(m, t), vec![]);
+                } else {
+                    self.push(Stmt::Connect(t, m), vec![]);
+                }
+            }
+        }
+    }
     fn duplicate(&mut self) {
         // re-emit an earlier binary statement commutated, or with an operand replaced by a
         // var connected to it (de-duplication through connect).
@@ -613,6 +718,8 @@ pub fn gen_prog<S: Setup>(rng: &mut SmallRng, opts: &GenOpts) -> Generated<S> {
             g.ext();
         } else if r < c + 63 {
             g.misc();
+        } else if r >= 96 {
+            g.dup_pair_share();
         } else {
             g.binop();
         }
